@@ -43,6 +43,7 @@ func alignedHolder(n, i int) int { return (n - i) % 3 }
 type c02Case struct {
 	Cmds      []int `json:"cmds"`      // [invocation, d0 (leaf), ..., d_{n-1} (root)] indexes into the lattice
 	Powerline int   `json:"powerline"` // 0 = none; k > 0: link k-1 (never the root) carries no subject
+	Self      int   `json:"self"`      // 0 = none; k > 0: link k-1 (never the root) is issued by its own audience (P -> P, P not the subject)
 }
 
 func (c *c02Case) Weight() int { return len(c.Cmds) }
@@ -51,7 +52,7 @@ func c02Sub(name, dir string, qn, tn int) *engine.Sub {
 	return &engine.Sub{
 		Name:   name,
 		Repeat: true,
-		Rule:   "every assignment of lattice commands {/, /a, /a/b, /a/b/c, /a/c, /ab, /ab/c, /b, /σ, /ς (two distinct lower-case commands that only differ by case-fold partners), /a/.., /a/./b, /a//b (dot and empty segments are ordinary segments, not path navigation), /ucan, /ucan/revoke (the namespace the UCAN specifications use for their own commands obeys the same rule), /σ/a (a child of a command that is not ASCII)} to the invocation and to each link of a principal-aligned chain (chains of 2 - 3 links also with one non-root link that names no subject); non-trivial = at most one link fails the reference cover relation",
+		Rule:   "every assignment of lattice commands {/, /a, /a/b, /a/b/c, /a/c, /ab, /ab/c, /b, /σ, /ς (two distinct lower-case commands that only differ by case-fold partners), /a/.., /a/./b, /a//b (dot and empty segments are ordinary segments, not path navigation), /ucan, /ucan/revoke (the namespace the UCAN specifications use for their own commands obeys the same rule), /σ/a (a child of a command that is not ASCII)} to the invocation and to each link of a principal-aligned chain (chains of 2 - 3 links also with one non-root link that names no subject, and with one non-root link that a principal other than the subject issues to itself); non-trivial = at most one link fails the reference cover relation",
 		Bound: func(t string) string {
 			return fmt.Sprintf("chains of 1..%d links, %d commands per position", tierN(t, qn, tn), len(c02Lattice))
 		},
@@ -69,6 +70,13 @@ func c02Sub(name, dir string, qn, tn int) *engine.Sub {
 						for k := 1; k < n; k++ {
 							if !emit(&c02Case{Cmds: append([]int{}, idx...), Powerline: k}) {
 								return
+							}
+							// the same positions with a link that a principal other than the subject issues to itself (a "refresh" of
+							// its own grant): it is a link like any other, with a command that has to cover and be covered
+							if c02Holders(n, k)[k] != 0 {
+								if !emit(&c02Case{Cmds: append([]int{}, idx...), Self: k}) {
+									return
+								}
 							}
 						}
 					}
@@ -93,17 +101,18 @@ func c02Sub(name, dir string, qn, tn int) *engine.Sub {
 			n := len(cs.Cmds) - 1
 			ld := &sliceLoader{}
 			prf := make([]cid.Cid, n)
+			h := c02Holders(n, cs.Self)
 			for i := 0; i < n; i++ {
 				sub := 0
 				if cs.Powerline == i+1 {
 					sub = -1
 				}
-				d := mustDlg(alignedHolder(n, i+1), alignedHolder(n, i), sub, c02Lattice[cs.Cmds[i+1]], nil)
+				d := mustDlg(h[i+1], h[i], sub, c02Lattice[cs.Cmds[i+1]], nil)
 				ld.cids = append(ld.cids, cidPool[i])
 				ld.toks = append(ld.toks, d)
 				prf[i] = cidPool[i]
 			}
-			inv, err := invocation.New(prin(alignedHolder(n, 0)), prin(0), commandOf(c02Lattice[cs.Cmds[0]]), prf,
+			inv, err := invocation.New(prin(h[0]), prin(0), commandOf(c02Lattice[cs.Cmds[0]]), prf,
 				invocation.WithNonce(fixedNonce), invocation.WithoutInvokedAt())
 			if err != nil {
 				panic(err)
@@ -250,6 +259,25 @@ func c02SeqSub(dir string) *engine.Sub {
 			}
 		},
 	}
+}
+
+// c02Holders returns q_0 .. q_n of an aligned chain of n links (link i: issuer q_{i+1}, audience q_i, q_n = p0 the
+// subject); with self = k > 0, link k-1 is issued by its own audience (q_k = q_{k-1}) and the other links are aligned around it.
+func c02Holders(n, self int) []int {
+	h := make([]int, n+1)
+	if self == 0 {
+		for i := range h {
+			h[i] = alignedHolder(n, i)
+		}
+		return h
+	}
+	for i := 0; i < self; i++ {
+		h[i] = alignedHolder(n-1, i)
+	}
+	for i := self; i <= n; i++ {
+		h[i] = alignedHolder(n-1, i-1)
+	}
+	return h
 }
 
 func c02Describe(cs *c02Case) string {
